@@ -6,6 +6,9 @@ use vcore::report::*;
 mod builders;
 mod c0103;
 mod c02;
+mod c04;
+mod c05;
+mod c06;
 mod c13;
 mod c14;
 mod c15;
@@ -13,6 +16,9 @@ mod c16;
 mod c17;
 mod cs;
 mod real;
+mod seqs;
+mod sim;
+mod wf;
 mod util;
 
 #[global_allocator]
@@ -55,6 +61,10 @@ fn main() {
         "C01" => c0103::run(&run, false),
         "C02" => c02::run(&run),
         "C03" => c0103::run(&run, true),
+        "C04" => c04::run(&run),
+        "C05" => c05::run(&run),
+        "C06" => c06::run(&run),
+        "C11" => wf::run_c11(&run),
         "C13" => c13::run(&run),
         "C14" => c14::run(&run),
         "C15" => c15::run(&run),
